@@ -9,7 +9,7 @@ asserts only totality and path agreement there.
 """
 from decimal import Decimal
 
-from .dtable_model import lit_value, input_value, boundary_points
+from .dtable_model import lit_value, input_value, boundary_points, Tv
 
 
 class _Unspec:
@@ -21,6 +21,8 @@ UNSPEC = _Unspec()
 
 
 def _same_kind(a, b):
+    if isinstance(a, Tv) or isinstance(b, Tv):
+        return isinstance(a, Tv) and isinstance(b, Tv) and a.kind == b.kind
     if isinstance(a, bool) or isinstance(b, bool):
         return isinstance(a, bool) and isinstance(b, bool)
     if isinstance(a, Decimal) or isinstance(b, Decimal):
